@@ -265,7 +265,8 @@ func isRefKind(k string) bool {
 }
 
 // types whose methods are documented to be safe for concurrent use (they lock internally)
-var selfSync = map[string]bool{"log.Logger": true, "regexp.Regexp": true, "os.File": true}
+var selfSync = map[string]bool{"log.Logger": true, "regexp.Regexp": true, "os.File": true,
+	"slicepool.ObjectPool": true} // ObjectPool: by its own table (`objectPool`), the others by their documentation
 
 // stdlib packages none of whose functions keep a reference to an argument after returning
 var nonRetaining = map[string]bool{"strings": true, "bytes": true, "fmt": true, "sort": true, "slices": true, "strconv": true,
@@ -366,6 +367,8 @@ type analyzer struct {
 	nextLabel  string
 	structs    []string
 	ngo        int
+
+	closureCtors map[string]bool
 }
 
 type callInfo struct{ locked, unlocked int }
@@ -957,8 +960,11 @@ func (a *analyzer) walkCall(call *ast.CallExpr) []src {
 			a.emitSrcs(a.aliasSrcs(lv), true, "call:func", call, false)
 		}
 	}
-	if fl, ok := call.Fun.(*ast.FuncLit); ok {
-		a.walk(fl)
+	switch f := call.Fun.(type) {
+	case *ast.FuncLit:
+		a.walk(f)
+	case *ast.IndexExpr, *ast.CallExpr, *ast.ParenExpr, *ast.TypeAssertExpr, *ast.StarExpr:
+		a.walk(f) // args[0](ctx): reads the element, then calls through it
 	}
 	a.walkArgs(call, fn)
 	return nil
@@ -1642,7 +1648,7 @@ func structNames(tp *tpkg) []string {
 
 func newAnalyzer(w *typeWorld, cfg accessCfg) *analyzer {
 	return &analyzer{w: w, tp: w.pkgs[cfg.dir], cfg: cfg, byObj: map[*types.Var]*fieldInfo{}, alias: map[*types.Var]map[*fieldInfo]string{},
-		calls: map[string]*callInfo{}, assumed: map[string]bool{}, mutMemo: map[string]int{}}
+		calls: map[string]*callInfo{}, assumed: map[string]bool{}, mutMemo: map[string]int{}, closureCtors: map[string]bool{}}
 }
 
 func flowName(tp *tpkg, fd *ast.FuncDecl, own map[string]bool) string {
@@ -1707,9 +1713,61 @@ func (a *analyzer) collect(ctors []string) bool {
 		}
 	case "locals":
 		return a.collectLocals()
+	case "closures":
+		// variables of a top-level function that one of its function literals mentions: the literal (a compiled
+		// expression stage, a callback) outlives the call and is run by every worker
+		for _, f := range tp.files {
+			for _, d := range f.Decls {
+				fd, ok := d.(*ast.FuncDecl)
+				if !ok || fd.Body == nil {
+					continue
+				}
+				var lits []*ast.FuncLit
+				ast.Inspect(fd.Body, func(n ast.Node) bool {
+					if fl, ok := n.(*ast.FuncLit); ok {
+						lits = append(lits, fl)
+					}
+					return true
+				})
+				inLit := func(p token.Pos) bool {
+					for _, fl := range lits {
+						if fl.Pos() <= p && p <= fl.End() {
+							return true
+						}
+					}
+					return false
+				}
+				for _, fl := range lits {
+					ast.Inspect(fl.Body, func(n ast.Node) bool {
+						id, ok := n.(*ast.Ident)
+						if !ok {
+							return true
+						}
+						v, ok := tp.info.Uses[id].(*types.Var)
+						if !ok || v.IsField() || v.Pkg() != tp.pkg || v.Parent() == tp.pkg.Scope() {
+							return true
+						}
+						if v.Pos() < fd.Pos() || v.Pos() > fd.End() || inLit(v.Pos()) {
+							return true // declared elsewhere, or inside a literal (one instance per call of that literal)
+						}
+						if a.byObj[v] == nil {
+							a.addField(v)
+							fi := a.byObj[v]
+							fi.name = flowName(tp, fd, own) + "." + v.Name()
+							fi.region = fi.name
+							a.closureCtors[flowName(tp, fd, own)] = true
+						}
+						return true
+					})
+				}
+			}
+		}
 	}
 	isCtor := map[string]bool{}
 	for _, c := range ctors {
+		isCtor[c] = true
+	}
+	for c := range a.closureCtors {
 		isCtor[c] = true
 	}
 	type fl struct {
